@@ -223,3 +223,116 @@ Lemma copied_cell : forall h l h' m l' k k', copied h l h' m l' -> In (k, k') m 
   exists t ks ks', lookup h' k = Some (Cell t ks) /\ lookup h' k' = Some (Cell t ks') /\
                    Forall2 (related m) ks ks'.
 Proof. intros h l h' m l' k k' C I. apply (cp_memo _ _ _ _ _ C _ _ I). Qed.
+
+(* ------------------------------------------------------------------------- *)
+(* the memo is a function (an object is copied once): needs acyclicity, because the model
+   enters an object into the memo after its members *)
+
+Definition memo_fun (m : memo) : Prop := forall a b c, In (a, b) m -> In (a, c) m -> b = c.
+
+Lemma rt_ext : forall h h' a b, ext h h' -> rt h a b -> rt h' a b.
+Proof.
+  intros h h' a b E R. apply clos_rt_rtn1 in R. induction R; [apply rt_here|].
+  eapply rt_snoc; [exact IHR|]. destruct H as (c & L & I). exists c. split; auto.
+  eapply ext_lookup_some; eauto.
+Qed.
+
+Lemma mthread_mcopy_ext : forall f ks h m h1 m1 ks1,
+  mthread (mcopy f) h m ks = Ok (h1, m1, ks1) -> ext h h1.
+Proof.
+  intros f. induction ks as [|k ks IH]; cbn [mthread]; intros h m h1 m1 ks1 TH.
+  - inversion TH; subst. apply ext_refl.
+  - destruct (mcopy f h m k) as [[[h2 m2] k2]| |] eqn:C; cbn [bind fst snd] in TH; try discriminate.
+    destruct (mthread (mcopy f) h2 m2 ks) as [[[h3 m3] ks3]| |] eqn:T2; cbn [bind fst snd] in TH; try discriminate.
+    inversion TH; subst. eapply ext_trans; [eapply mcopy_ext; eauto|eapply IH; eauto].
+Qed.
+
+(* every key entered by a call is reachable from the call's argument *)
+Lemma mcopy_keys : forall f h m l h' m' l', mcopy f h m l = Ok (h', m', l') ->
+  forall k k', In (k, k') m' -> In (k, k') m \/ rt h' l k.
+Proof.
+  induction f; cbn [mcopy]; intros h m l h' m' l' H k k' I; [discriminate|].
+  destruct (mfind m l); [inversion H; subst; auto|].
+  destruct (lookup h l) as [[t ks]|] eqn:L; try discriminate.
+  destruct (mthread (mcopy f) h m ks) as [[[h1 m1] ks1]| |] eqn:TH; cbn [bind fst snd alloc] in H; try discriminate.
+  inversion H; subst h' m' l'; clear H.
+  assert (TK : forall ks h m h1 m1 ks1, mthread (mcopy f) h m ks = Ok (h1, m1, ks1) ->
+               forall k k', In (k, k') m1 -> In (k, k') m \/ exists c, In c ks /\ rt h1 c k).
+  { clear -IHf. induction ks as [|c ks IH]; cbn [mthread]; intros h m h1 m1 ks1 TH k k' I.
+    - inversion TH; subst. auto.
+    - destruct (mcopy f h m c) as [[[h2 m2] c2]| |] eqn:C; cbn [bind fst snd] in TH; try discriminate.
+      destruct (mthread (mcopy f) h2 m2 ks) as [[[h3 m3] ks3]| |] eqn:T2; cbn [bind fst snd] in TH; try discriminate.
+      inversion TH; subst h1 m1 ks1; clear TH.
+      destruct (IH _ _ _ _ _ T2 _ _ I) as [I2|(c' & Ic & R)].
+      + destruct (IHf _ _ _ _ _ _ C _ _ I2) as [I0|R]; auto.
+        right. exists c. split; [left; auto|]. eapply rt_ext; [eapply mthread_mcopy_ext; eauto|exact R].
+      + right. exists c'. split; [right; auto|exact R]. }
+  pose proof (mthread_mcopy_ext _ _ _ _ _ _ _ TH) as E1.
+  destruct I as [Eq|I]; [inversion Eq; subst; right; apply rt_here|].
+  destruct (TK _ _ _ _ _ _ TH _ _ I) as [I0|(c & Ic & R)]; auto.
+  right. eapply rt_trans'; [apply edge_rt|eapply rt_ext; [apply ext_alloc|exact R]].
+  exists (Cell t ks). split; auto. eapply ext_lookup_some; [eapply ext_trans; [exact E1|apply ext_alloc]|exact L].
+Qed.
+
+Lemma mcopy_fun : forall f h0 h m l h' m' l',
+  copy_inv h0 h m -> wf h -> memo_fun m -> mcopy f h m l = Ok (h', m', l') -> memo_fun m'.
+Proof.
+  induction f; cbn [mcopy]; intros h0 h m l h' m' l' INV W FU H; [discriminate|].
+  destruct (mfind m l) eqn:MF; [inversion H; subst; auto|].
+  destruct (lookup h l) as [[t ks]|] eqn:L; try discriminate.
+  destruct (mthread (mcopy f) h m ks) as [[[h1 m1] ks1]| |] eqn:TH; cbn [bind fst snd alloc] in H; try discriminate.
+  inversion H; subst h' m' l'; clear H.
+  (* the members: functional, and the invariants survive *)
+  assert (TF : forall ks h m h1 m1 ks1, copy_inv h0 h m -> wf h -> memo_fun m ->
+               mthread (mcopy f) h m ks = Ok (h1, m1, ks1) -> memo_fun m1 /\ wf h1).
+  { clear -IHf. induction ks as [|c ks IH]; cbn [mthread]; intros h m h1 m1 ks1 INV W FU TH.
+    - inversion TH; subst. auto.
+    - destruct (mcopy f h m c) as [[[h2 m2] c2]| |] eqn:C; cbn [bind fst snd] in TH; try discriminate.
+      destruct (mthread (mcopy f) h2 m2 ks) as [[[h3 m3] ks3]| |] eqn:T2; cbn [bind fst snd] in TH; try discriminate.
+      inversion TH; subst h1 m1 ks1; clear TH.
+      destruct (mcopy_spec _ _ _ _ _ _ _ _ INV C) as ((E & INV2 & _ & W2) & _).
+      eapply IH; [exact INV2|auto|exact (IHf h0 h m c h2 m2 c2 INV W FU C)|exact T2]. }
+  destruct (TF _ _ _ _ _ _ INV W FU TH) as (FU1 & W1).
+  pose proof (mthread_mcopy_ext _ _ _ _ _ _ _ TH) as E1.
+  assert (NK : forall x, ~ In (l, x) m1).
+  { intros x I.
+    assert (TK : In (l, x) m \/ exists c, In c ks /\ rt h1 c l).
+    { clear -TH I. revert h m h1 m1 ks1 TH I. induction ks as [|c ks IH]; cbn [mthread]; intros h m h1 m1 ks1 TH I.
+      - inversion TH; subst. auto.
+      - destruct (mcopy f h m c) as [[[h2 m2] c2]| |] eqn:C; cbn [bind fst snd] in TH; try discriminate.
+        destruct (mthread (mcopy f) h2 m2 ks) as [[[h3 m3] ks3]| |] eqn:T2; cbn [bind fst snd] in TH; try discriminate.
+        inversion TH; subst h1 m1 ks1; clear TH.
+        destruct (IH _ _ _ _ _ T2 I) as [I2|(c' & Ic & R)].
+        + destruct (mcopy_keys _ _ _ _ _ _ _ C _ _ I2) as [I0|R]; auto.
+          right. exists c. split; [left; auto|]. eapply rt_ext; [eapply mthread_mcopy_ext; eauto|exact R].
+        + right. exists c'. split; [right; auto|exact R]. }
+    destruct TK as [I0|(c & Ic & R)].
+    - eapply mfind_None; eauto.
+    - destruct W1 as [_ A1]. apply (A1 l). eapply edge_rt_tc; [|exact R].
+      exists (Cell t ks). split; auto. eapply ext_lookup_some; eauto. }
+  intros a b c [Eb|Ib] [Ec|Ic].
+  - congruence.
+  - inversion Eb; subst. exfalso. eapply NK; eauto.
+  - inversion Ec; subst. exfalso. eapply NK; eauto.
+  - eapply FU1; eauto.
+Qed.
+
+Lemma deepcopy_memo_fun : forall h l h' m l', wf h -> deepcopy_memo h l = Ok (h', m, l') -> memo_fun m.
+Proof.
+  unfold deepcopy_memo. intros h l h' m l' W H.
+  eapply mcopy_fun; [apply copy_inv_init|exact W| |exact H]. intros a b c [].
+Qed.
+
+(* copying a list of references keeps exactly the aliasing between its positions *)
+Lemma related_same_aliasing : forall m ks ks', memo_fun m -> memo_inj m -> Forall2 (related m) ks ks' ->
+  forall i j a b a' b', nth_error ks i = Some a -> nth_error ks j = Some b ->
+    nth_error ks' i = Some a' -> nth_error ks' j = Some b' -> (a = b <-> a' = b').
+Proof.
+  intros m ks ks' FU INJ F.
+  assert (N : forall i a a', nth_error ks i = Some a -> nth_error ks' i = Some a' -> In (a, a') m).
+  { induction F; intros [|i] a a' Ha Ha'; cbn in *; try discriminate.
+    - inversion Ha; inversion Ha'; subst. exact H.
+    - eapply IHF; eauto. }
+  intros i j a b a' b' Ha Hb Ha' Hb'. pose proof (N _ _ _ Ha Ha'). pose proof (N _ _ _ Hb Hb').
+  split; intro; subst; [eapply FU|eapply INJ]; eauto.
+Qed.
